@@ -1135,7 +1135,8 @@ fn parse_mapping(mapping: &Mapping) -> crate::Result<Expression> {
                 let mut rest: Vec<Expression> = vec![]; // NOTE: Don't care about speed of numbers atm
 
                 let mut boolean = false;
-                let mut cast = false;
+                // NOTE: str(k) casts every member, also when the list holds no string pattern
+                let mut cast = matches!(misc, Some(ModSym::Str));
                 let mut mapping = false;
                 let mut number = false;
                 let mut string = false;
